@@ -461,7 +461,7 @@ def de43_shapes():
 
 
 def judge_interpreter_options(ctx, case):
-    """The decode / read / write calls in a child interpreter started with other options (-bb, -O, warnings as errors):
+    """The decode / read / write calls in a child interpreter started with other options (-O, -OO, -X utf8, -I):
     good input must give a result, bad input a result or the library's error - never anything else."""
     from .. import optchild, optrun
     enc = case['enc']
@@ -696,7 +696,7 @@ def require(m):
     for need in ('loads outcome: returned', 'loads outcome: library_error'):
         if not c.get(need):
             reasons.append('never observed: ' + need)
-    if len(set(m['classes'].get('interpreter options the decode workload was repeated under', ()))) < 5 and not m['violations']:
+    if len(set(m['classes'].get('interpreter options the decode workload was repeated under', ()))) < 4 and not m['violations']:
         reasons.append('decode workload not repeated under all interpreter options')
     if c.get('inputs decoded in a child under a CPU allowance', 0) < 100 and not m['violations']:
         reasons.append('fewer than 100 inputs decoded in the CPU-guarded child')
